@@ -27,8 +27,8 @@ EXTENDS Rels, Json, IOUtils
 
 Trace == ndJsonDeserialize(IOEnv.WZ_OBS)
 
-VARIABLES l, cur, org, pend, wit
-tvars == <<l, cur, org, pend, wit>>
+VARIABLES l, cur, org, pend, dead, wit
+tvars == <<l, cur, org, pend, dead, wit>>
 
 AddWit(w, sigs, c) == w \cup {[sig |-> s, case |-> c] : s \in {x \in sigs : ~\E r \in w : r.sig = x}}
 
@@ -78,7 +78,8 @@ Judge(e) ==
   IN  (IF e.ret = "panic" THEN {<<"C02", opn, cls, "panic">>} ELSE {})
       \cup (IF e.ret \notin {"ok", "panic"} THEN {<<"M02", opn, "ret", e.ret>>} ELSE {})
       \cup (IF opn = "OpenForeign" /\ ~SynthOK(e) THEN {<<"M02", opn, "synth-mismatch", op.scheme \o "/" \o op.content>>} ELSE {})
-      \cup (IF ~e.seen THEN {}
+      \* a behaviour whose start failed (the package could not be opened) is not judged: there is no document
+      \cup (IF ~e.seen \/ dead \/ (opn \in StartOps /\ e.ret # "ok") THEN {}
             ELSE IF e.pkg.ok # "ok" THEN {<<"C02", name, cls, "unreadable", e.pkg.ok>>}
             ELSE \* the property on the written package: only what this step introduced
                  {<<"C02", name, cls>> \o v : v \in Viol_C02(obs) \ Viol_C02(base)}
@@ -97,10 +98,10 @@ Resync(e) == IF e.seen /\ e.pkg.ok = "ok" THEN ObsSt(e.pkg)
              ELSE IF e.op.op = "New" THEN InitSt
              ELSE IF e.op.op = "OpenForeign" THEN BaseOf(e.op) ELSE cur
 
-TInit == l = 1 /\ cur = EmptySt /\ org = "fresh" /\ pend = <<>> /\ wit = {}
+TInit == l = 1 /\ cur = EmptySt /\ org = "fresh" /\ pend = <<>> /\ dead = FALSE /\ wit = {}
 
 TReset == /\ l <= Len(Trace) /\ Trace[l].ev = "reset"
-          /\ cur' = EmptySt /\ org' = "fresh" /\ pend' = <<>> /\ wit' = wit /\ l' = l + 1
+          /\ cur' = EmptySt /\ org' = "fresh" /\ pend' = <<>> /\ dead' = FALSE /\ wit' = wit /\ l' = l + 1
 
 TStep == /\ l <= Len(Trace) /\ Trace[l].ev = "step"
          /\ LET e == Trace[l] IN
@@ -108,11 +109,12 @@ TStep == /\ l <= Len(Trace) /\ Trace[l].ev = "step"
               /\ cur' = Resync(e)
               /\ org' = OrgAfter(org, e.op)
               /\ pend' = IF e.seen THEN <<>> ELSE Append(pend, e.op)
+              /\ dead' = (dead \/ (e.op.op \in StartOps /\ e.ret # "ok"))
          /\ l' = l + 1
 
 TDone == /\ l = Len(Trace) + 1
          /\ PrintT(<<"WZDONE", l - 1, ToJson(wit)>>)
-         /\ l' = l + 1 /\ UNCHANGED <<cur, org, pend, wit>>
+         /\ l' = l + 1 /\ UNCHANGED <<cur, org, pend, dead, wit>>
 
 TNext == TReset \/ TStep \/ TDone
 TSpec == TInit /\ [][TNext]_tvars
